@@ -22,13 +22,22 @@ import (
 //                          ProbeNum > 0) at its state load, or performed the Open->HalfOpen
 //                          change itself; and the goroutine that performed it is admitted. With
 //                          ProbeNum = 0 nothing else is admitted while the breaker is half-open.
-//   C12_full_timeout       an Open->HalfOpen change happens at a clock value >= (clock of the
-//                          last change to Open made by a completion) + RetryTimeoutMs.
+//   C12_full_timeout       an Open->HalfOpen change (the admission of the probe) happens at a
+//                          clock value >= (clock at which the state word was last seen to go to
+//                          Open by a completion) + RetryTimeoutMs: no admission before a full
+//                          retry timeout since the breaker was observed Open. Where the deadline
+//                          is computed and stored relative to the CAS does not enter the clause;
+//                          it only decides whether a violation is one of the two recorded
+//                          findings (classified at the end of the trace, when it is known whether
+//                          the opener stored its deadline after its CAS, in the same operation).
 
 const (
-	// D11: the deadline checked was read after the opening CAS and before the opener's store
+	// D11: the deadline checked was read after the opening CAS and before the store of the deadline
+	// that the opener performs AFTER its CAS in the same operation (or is still on its way to when
+	// the trace ends)
 	sigF1 = "probe-admitted-on-stale-deadline-between-open-cas-and-deadline-store"
-	// the deadline was checked in an earlier open phase than the one in which the CAS succeeded
+	// the deadline was checked in an earlier open phase than the one in which the CAS succeeded: the
+	// breaker went HalfOpen and was re-opened between the check and the CAS
 	sigF2 = "probe-cas-succeeds-in-later-open-phase-than-its-deadline-check"
 )
 
@@ -38,6 +47,7 @@ type casT struct {
 	tid, from, to int
 	clk           uint64
 	step          int
+	op            int // index of the performer's operation
 	byComplete    bool
 	reported      bool
 	storeStep     int // step index of the performer's deadline store (304) after an opening; -1 = not yet
@@ -45,6 +55,7 @@ type casT struct {
 
 type tryInfo struct {
 	loadState int // state word before the step that started at 301
+	loadStep  int // index of that step
 	chkStep   int // step index of the 303 step, -1
 	ownCas    int // index into the ledger of the Open->HalfOpen change it performed, -1
 }
@@ -90,6 +101,11 @@ func monitor(c caseT, o obsT, rep *emit.Report) (st caseStats) {
 	n := len(c.Progs)
 	var ledger []casT
 	lastOpening := -1
+	type earlyT struct { // an Open->HalfOpen change before the full timeout: classified after the loop
+		si, tid, opening, chkStep, loadStep int
+		clk                       uint64
+	}
+	var early []earlyT
 	tries := make([]map[int]*tryInfo, n)
 	for i := range tries {
 		tries[i] = map[int]*tryInfo{}
@@ -130,7 +146,7 @@ func monitor(c caseT, o obsT, rep *emit.Report) (st caseStats) {
 			case !edgeOK(s.StB, s.StA):
 				fail("C12_transition_unique", "illegal-transition", "step %d: goroutine %d: %s->%s", si, s.Tid, stName(s.StB), stName(s.StA))
 			}
-			ledger = append(ledger, casT{tid: s.Tid, from: s.StB, to: s.StA, clk: s.Clk, step: si, byComplete: kind == "complete", storeStep: -1})
+			ledger = append(ledger, casT{tid: s.Tid, from: s.StB, to: s.StA, clk: s.Clk, step: si, op: s.Op, byComplete: kind == "complete", storeStep: -1})
 			li := len(ledger) - 1
 			switch {
 			case s.StB == stClosed && s.StA == stOpen:
@@ -151,18 +167,7 @@ func monitor(c caseT, o obsT, rep *emit.Report) (st caseStats) {
 				if lastOpening >= 0 {
 					op := ledger[lastOpening]
 					if s.Clk < op.clk+T {
-						sig := "probe-admitted-before-retry-timeout"
-						switch {
-						case ti.chkStep >= 0 && ti.chkStep < op.step:
-							sig = sigF2
-							st.f2++
-						case ti.chkStep >= 0 && (op.storeStep < 0 || ti.chkStep < op.storeStep):
-							sig = sigF1
-							st.f1++
-						}
-						fail("C12_full_timeout", sig,
-							"step %d: goroutine %d went Open->HalfOpen at clock %d; the breaker was opened at clock %d (step %d, goroutine %d), retry timeout %d ms: %d ms too early (deadline checked at step %d, opener's deadline store at step %d)",
-							si, s.Tid, s.Clk, op.clk, op.step, op.tid, T, op.clk+T-s.Clk, ti.chkStep, op.storeStep)
+						early = append(early, earlyT{si: si, tid: s.Tid, opening: lastOpening, chkStep: ti.chkStep, loadStep: ti.loadStep, clk: s.Clk})
 					}
 				} else {
 					fail("C12_full_timeout", "half-open-without-opening", "step %d: Open->HalfOpen although no completion opened the breaker", si)
@@ -181,7 +186,7 @@ func monitor(c caseT, o obsT, rep *emit.Report) (st caseStats) {
 			// the deadline store of the goroutine's latest opening
 			for k := len(ledger) - 1; k >= 0; k-- {
 				if ledger[k].tid == s.Tid && ledger[k].to == stOpen && ledger[k].byComplete {
-					if ledger[k].storeStep < 0 {
+					if ledger[k].storeStep < 0 && ledger[k].op == s.Op {
 						ledger[k].storeStep = si
 					}
 					break
@@ -192,6 +197,7 @@ func monitor(c caseT, o obsT, rep *emit.Report) (st caseStats) {
 			ti := getTry(s.Tid, s.Op)
 			if s.At == 301 && ti.loadState < 0 {
 				ti.loadState = s.StB
+				ti.loadStep = si
 			}
 			if s.At == 303 {
 				ti.chkStep = si
@@ -261,6 +267,50 @@ func monitor(c caseT, o obsT, rep *emit.Report) (st caseStats) {
 				}
 			}
 		}
+	}
+	// ---- C12_full_timeout: classification of the early probes
+	// the opener is still on its way to the deadline store that follows its CAS: since the CAS it
+	// has neither left the store's yield point, nor reached the listener calls, nor ended the operation
+	storePending := func(op casT) bool {
+		for k := op.step + 1; k < len(o.Steps); k++ {
+			s := o.Steps[k]
+			if s.At == -1 || s.Tid != op.tid {
+				continue
+			}
+			if s.At == 304 || s.At == 307 || s.At == 300 || s.Op != op.op {
+				return false
+			}
+		}
+		l := o.Steps[op.step].Label
+		for k := op.step + 1; k < len(o.Steps); k++ {
+			if s := o.Steps[k]; s.At != -1 && s.Tid == op.tid {
+				l = s.Label
+			}
+		}
+		return l == 304 || l == 306
+	}
+	for _, e := range early {
+		op := ledger[e.opening]
+		sig := "probe-admitted-before-retry-timeout"
+		switch {
+		case e.chkStep >= 0 && e.chkStep < op.step:
+			// the check belongs to an earlier open phase only if the breaker left Open between the
+			// request's load of the state word and the opening
+			for _, l := range ledger {
+				if l.step > e.loadStep && l.step < op.step && l.to == stHalfOpen {
+					sig = sigF2
+				}
+			}
+			if sig == sigF2 {
+				st.f2++
+			}
+		case e.chkStep > op.step && ((op.storeStep >= 0 && e.chkStep < op.storeStep) || (op.storeStep < 0 && storePending(op))):
+			sig = sigF1
+			st.f1++
+		}
+		fail("C12_full_timeout", sig,
+			"step %d: goroutine %d went Open->HalfOpen (probe admitted) at clock %d; the state word was seen to go to Open at clock %d (step %d, goroutine %d), retry timeout %d ms: %d ms before a full timeout had elapsed (deadline checked at step %d; opener's deadline store after its CAS at step %d)",
+			e.si, e.tid, e.clk, op.clk, op.step, op.tid, T, op.clk+T-e.clk, e.chkStep, op.storeStep)
 	}
 	// ticks while some goroutine is inside an operation
 	{
